@@ -10,6 +10,7 @@ import (
 	"go/types"
 	"os"
 	"path/filepath"
+	"regexp"
 	"sort"
 	"strings"
 
@@ -242,4 +243,64 @@ func (w *World) funcSourceHash(f *ssa.Function) string {
 	}
 	h := sha256.Sum256(b[p0.Offset:p1.Offset])
 	return fmt.Sprintf("%x", h[:8])
+}
+
+// sweepSpecs: implicit safety-only contracts for every function of a package.
+func sweepSpecs(w *World, sw *Sweep, specs *Specs) []*FuncSpec {
+	pkg, ok := w.spkgs[sw.Pkg]
+	if !ok {
+		return nil
+	}
+	var excl, incl *regexp.Regexp
+	if sw.Exclude != "" {
+		excl = regexp.MustCompile(sw.Exclude)
+	}
+	if sw.Include != "" {
+		incl = regexp.MustCompile(sw.Include)
+	}
+	var fns []*ssa.Function
+	for _, m := range pkg.Members {
+		switch v := m.(type) {
+		case *ssa.Function:
+			fns = append(fns, v)
+		case *ssa.Type:
+			for _, t := range []types.Type{v.Type(), types.NewPointer(v.Type())} {
+				ms := w.prog.MethodSets.MethodSet(t)
+				for i := 0; i < ms.Len(); i++ {
+					if f := w.prog.MethodValue(ms.At(i)); f != nil {
+						fns = append(fns, f)
+					}
+				}
+			}
+		}
+	}
+	seen := map[string]bool{}
+	var out []*FuncSpec
+	for _, f := range fns {
+		if f.Synthetic != "" || len(f.Blocks) == 0 || strings.HasPrefix(f.Name(), "init") || f.Pkg != pkg {
+			continue
+		}
+		if pos := w.fset.Position(f.Pos()); strings.HasSuffix(pos.Filename, "_test.go") {
+			continue
+		}
+		key := funcKey(f)
+		if seen[key] {
+			continue
+		}
+		seen[key] = true
+		if excl != nil && excl.MatchString(key) {
+			continue
+		}
+		if incl != nil && !incl.MatchString(key) {
+			continue
+		}
+		if sp, ok := specs.Funcs[key]; ok {
+			if hasProp(sp.Props, sw.Props[0]) || sp.Opaque || sp.Trusted {
+				continue // explicit contract wins
+			}
+		}
+		out = append(out, &FuncSpec{Key: key, Loops: map[int]*LoopSpec{}, Props: sw.Props, NoPanic: sw.NoPanic, InferAll: sw.Infer, File: sw.File, Implicit: true, NoNil: sw.NoNil})
+	}
+	sort.Slice(out, func(i, j int) bool { return out[i].Key < out[j].Key })
+	return out
 }
